@@ -143,17 +143,18 @@ def r06_1(ctx):
     ctx.sample({"v8 header for seq 255": "ff0001" + "0000"})
 
 
-@rule("R06.4", ["C06", "C10", "C08"], "T-PAIR", floor=10)
+@rule("R06.4", ["C06", "C10", "C08", "C07"], "T-PAIR", floor=10)
 def r06_4(ctx):
     """The single in-flight slot: send and wait happen inside `async with self._send_semaphore(priority=...)`,
     which is a PriorityDynamicBoundedSemaphore of MAX_COMMAND_CONCURRENCY = 1 and is touched in no other way, so it
     is released on return, timeout, send failure and cancellation alike; the reply wait is bounded by
     asyncio_timeout(EZSP_CMD_TIMEOUT); on every failing exit the call raises."""
     repo = ctx.repo
+    P = ("C06", "C10", "C08")  # everything but the header/registration agreement, which is also a codec matter (C07)
     n = const(ctx, PROTO, "MAX_COMMAND_CONCURRENCY", int)
-    ctx.require(n == 1, "MAX_COMMAND_CONCURRENCY", f"MAX_COMMAND_CONCURRENCY = {n}; one-in-flight needs 1")
+    ctx.require(n == 1, "MAX_COMMAND_CONCURRENCY", f"MAX_COMMAND_CONCURRENCY = {n}; one-in-flight needs 1", props=P)
     tmo = const(ctx, PROTO, "EZSP_CMD_TIMEOUT")
-    ctx.require(0 < tmo <= 60, "EZSP_CMD_TIMEOUT", f"EZSP_CMD_TIMEOUT = {tmo}")
+    ctx.require(0 < tmo <= 60, "EZSP_CMD_TIMEOUT", f"EZSP_CMD_TIMEOUT = {tmo}", props=P)
     send = Outcomes(OK(None), RAISE("NcpFailure"), RAISE("CancelledError"))
     wait = Outcomes(OK(Sym("reply")), RAISE("TimeoutError"), RAISE("CancelledError"))
     f, px, paths = explore_command(ctx, 8, 7, "nop", send, wait, cancel=True)
@@ -185,9 +186,23 @@ def r06_4(ctx):
             bad = (f"a request was built with sequence number 7 but the counter ends at {p.store['self'].get('_seq')!r} on this exit: the number must be "
                    "consumed exactly once whatever the outcome (a reused number lets a late reply complete another call)")
         if bad:
-            ctx.violation("command:slot", f"path [{pid}]: {bad}", func=f, trace=p.trace(40))
+            ctx.violation("command:slot", f"path [{pid}]: {bad}", func=f, trace=p.trace(40), props=("C06", "C10", "C08"))
         else:
             ctx.ok(1, pid)
+        # every frame handed to the link carries, in its header, the number under which the call is waiting at that moment (also
+        # when the frame is sent again after a timeout: a frame built once and re-sent under a new registration is answered under
+        # the old number, which nobody waits for any more)
+        hdr = header_of(p)
+        last_reg = None
+        for e in p.events:
+            if e.kind == "write" and e.what == "self._awaiting[]":
+                last_reg = e.args[0]
+            elif e.kind == "await" and e.what.endswith("send_data") and hdr is not None and isinstance(last_reg, int):
+                want = bytes([last_reg]) + hdr[1:]
+                d = e.args[0] if e.args else None
+                ok = (isinstance(d, Sym) and repr(want)[1:] in d.tag) or (isinstance(d, (bytes, bytearray)) and bytes(d).startswith(want))
+                ctx.require(ok, "command:header-vs-registration", f"path [{pid}]: the call waits under sequence number {last_reg} but the frame sent is {d!r:.70} "
+                            f"(header must start with {want.hex()})", func=f, trace=p.trace(40))
     # construction and uses of the semaphore
     for g, nnode, kind in index(repo).writers("_send_semaphore"):
         st = [s for s in ast.walk(g.node) if isinstance(s, ast.Assign) and any(t is nnode for t in s.targets)]
@@ -195,7 +210,7 @@ def r06_4(ctx):
         ok = (g.short == "ProtocolHandler.__init__" and isinstance(v, ast.Call) and text(v.func).endswith("PriorityDynamicBoundedSemaphore")
               and [(k.arg, repo.te.ev(k.value, repo.module(PROTO), PROTO)) for k in v.keywords] + [repo.te.ev(a, repo.module(PROTO), PROTO) for a in v.args]
               in ([("value", n)], [n]))
-        ctx.require(ok, f"semaphore-store:{g.short}", f"send semaphore assigned in {g.short}: {text(v) if v else '?'}", func=g, node=nnode)
+        ctx.require(ok, f"semaphore-store:{g.short}", f"send semaphore assigned in {g.short}: {text(v) if v else '?'}", func=g, node=nnode, props=P)
     for g, nnode in index(repo).references("_send_semaphore"):
         ok = False
         for q in ast.walk(g.node):
@@ -206,7 +221,7 @@ def r06_4(ctx):
                     and isinstance(q.ctx, ast.Load):
                 ok = True  # a read-only query (locked(), value, num_waiting ...): diagnostics, not slot management
         ctx.require(ok, f"semaphore-use:{g.short}", f"send semaphore used in {g.short} line {nnode.lineno} other than `async with` in command()",
-                    func=g, node=nnode)
+                    func=g, node=nnode, props=P)
     from .ash_link import confined_writers
 
     confined_writers(ctx, "_seq", {q for q in px.visited}, {"ProtocolHandler.__init__"}, "R06.1/R06.4 (command)")
